@@ -514,6 +514,8 @@ def rule_discarded_results(ctx, R="C11/discarded-results"):
                 ty = b.locals[d["l"]]["ty"]
                 if not (ty.startswith("std::result::Result<") or ty.startswith("std::io::Result")):
                     continue
+                if ty.replace(" ", "") == "std::result::Result<usize,usize>":
+                    continue    # binary_search & co: both sides are positions, neither is a failure
                 n_calls += 1
                 o = o or Origin(b)
                 me = nosite(o.call_expr(bi))
